@@ -22,6 +22,12 @@ pub struct Place {
     ty: Ty,
     /// the place is element `index` (a Lean `Nat` term) of the list at root.fields
     index: Option<String>,
+    /// the place is the content of the `Option` at root.fields (inside a `Some(_)` arm); applied before `index`
+    opt: bool,
+    /// component `k` of the `n`-tuple found there; applied after `index`
+    proj: Option<(usize, usize)>,
+    /// the elements `[lo, hi)` (Lean `Nat` terms) of the list found there (a `split_last_mut` head)
+    range: Option<(String, String)>,
 }
 
 impl<'w> Ctx<'w> {
@@ -29,15 +35,25 @@ impl<'w> Ctx<'w> {
         match strip_ref(ex) {
             Expr::Path(p) if p.path.segments.len() == 1 => {
                 let n = p.path.segments[0].ident.to_string();
+                let masked = self.lookup(&n).map_or(false, |v| v.masks_alias);
+                if masked {
+                    let v = self.lookup(&n)?;
+                    return Some(Place { root: n, fields: vec![], ty: v.ty, index: None, opt: false, proj: None, range: None });
+                }
                 if let Some(pl) = self.elems.get(&n) {
                     return Some(pl.clone());
                 }
+                if let Some((pl, lo, hi)) = self.heads.get(&n) {
+                    let mut q = pl.clone();
+                    q.range = Some((lo.clone(), hi.clone()));
+                    return Some(q);
+                }
                 let v = self.lookup(&n)?;
-                Some(Place { root: n, fields: vec![], ty: v.ty, index: None })
+                Some(Place { root: n, fields: vec![], ty: v.ty, index: None, opt: false, proj: None, range: None })
             }
             Expr::Field(f) => {
                 let mut base = self.place_of(&f.base)?;
-                if base.index.is_some() {
+                if base.index.is_some() || base.opt || base.proj.is_some() || base.range.is_some() {
                     return None;
                 }
                 let fname = match &f.member {
@@ -61,14 +77,52 @@ impl<'w> Ctx<'w> {
         for f in &p.fields {
             s = format!("{}.{}", s, lean_ident(f));
         }
+        if p.opt {
+            s = format!("({}.getD default)", s);
+        }
         if let Some(i) = &p.index {
             s = format!("({}[{}]!)", s, i);
+        }
+        if let Some((k, n)) = p.proj {
+            for _ in 0..k { s = format!("{}.2", s); }
+            if k + 1 < n { s = format!("{}.1", s); }
+        }
+        if let Some((lo, hi)) = &p.range {
+            s = if lo == "0" { format!("({}.take {})", s, paren(hi)) } else { format!("(({}.drop {}).take ({} - {}))", s, paren(lo), hi, lo) };
         }
         s
     }
     /// the statement that stores `val` (a pure Lean term) into the place
     fn place_write(&self, p: &Place, val: &str) -> String {
         let root = self.lookup(&p.root).map(|v| v.lean).unwrap_or(lean_ident(&p.root));
+        if let Some((lo, hi)) = &p.range {
+            // a sub-range of a list: the elements around it stay
+            let mut q = p.clone();
+            q.range = None;
+            let list = self.place_read(&q);
+            let v = if lo == "0" { format!("({} ++ {}.drop {})", val, list, paren(hi)) } else { format!("({}.take {} ++ {} ++ {}.drop {})", list, paren(lo), val, list, paren(hi)) };
+            return self.place_write(&q, &v);
+        }
+        if let Some((k, n)) = p.proj {
+            // one component of a tuple: the others stay
+            let mut q = p.clone();
+            q.proj = None;
+            let cur = self.place_read(&q);
+            let mut parts = vec![];
+            for i in 0..n {
+                if i == k { parts.push(paren(val)); continue; }
+                let mut c = cur.clone();
+                for _ in 0..i { c = format!("{}.2", c); }
+                if i + 1 < n { c = format!("{}.1", c); }
+                parts.push(c);
+            }
+            return self.place_write(&q, &format!("({})", parts.join(", ")));
+        }
+        if p.opt && p.index.is_none() {
+            let mut q = p.clone();
+            q.opt = false;
+            return self.place_write(&q, &format!("(Option.some {})", val));
+        }
         if let Some(i) = &p.index {
             // element of a list: replace it in the list, then store the list
             let mut q = p.clone();
@@ -146,7 +200,12 @@ impl<'w> Ctx<'w> {
             Expr::Path(p) => {
                 let s = path_str(&p.path);
                 if p.path.segments.len() == 1 {
-                    if let Some(pl) = self.elems.get(&s).cloned() {
+                    let masked = self.lookup(&s).map_or(false, |v| v.masks_alias);
+                    if let (false, Some(pl)) = (masked, self.elems.get(&s).cloned()) {
+                        return Ok(e(self.place_read(&pl), pl.ty.clone()));
+                    }
+                    if !masked && self.heads.contains_key(&s) {
+                        let pl = self.place_of(ex).ok_or("split_last_mut head")?;
                         return Ok(e(self.place_read(&pl), pl.ty.clone()));
                     }
                     if let Some(v) = self.lookup(&s) {
@@ -460,10 +519,27 @@ impl<'w> Ctx<'w> {
     }
 
     fn call(&mut self, c: &ExprCall) -> R<E> {
-        let f = match &*c.func {
+        let func = match &*c.func { Expr::Paren(p) => &*p.expr, o => o };
+        let f = match func {
             Expr::Path(p) => p,
             _ => return Err("call of a non-path".into()),
         };
+        if f.path.segments.len() == 1 {
+            if let Some(v) = self.lookup(&f.path.segments[0].ident.to_string()) {
+                if let Ty::FnMut1(a, r) = v.ty.clone() {
+                    // `(mov)(&mut place)`: apply the function, store the handed-back argument
+                    if c.args.len() != 1 { return Err("closure call arity".into()); }
+                    let pl = self.place_of(&c.args[0]).ok_or("closure argument is not a place")?;
+                    if self.resolve(&pl.ty) != *a { return Err(format!("closure argument of type {:?}", pl.ty)); }
+                    let cur = self.place_read(&pl);
+                    let (r1, a1) = (self.fresh("r"), self.fresh("a"));
+                    self.pre.push(format!("let ({}, {}) ← {} {}", r1, a1, v.lean, cur));
+                    let w = self.place_write(&pl, &a1);
+                    self.pre.push(w);
+                    return Ok(E { s: r1, ty: *r, eff: false });
+                }
+            }
+        }
         let name = path_str(&f.path);
         let last = f.path.segments.last().unwrap();
         match name.as_str() {
@@ -505,6 +581,18 @@ impl<'w> Ctx<'w> {
                 Ok(E { s: format!("({}, {})", a.s, b.s), ty: Ty::Tuple(vec![a.ty, b.ty]), eff: a.eff || b.eff })
             }
             "Vec::new" => Ok(e("[]", Ty::Any)),
+            "Vec::with_capacity" => {
+                // capacity is not observable; the argument is still evaluated (it may overflow)
+                let a = self.expr(&c.args[0])?;
+                self.unify(&a.ty, &Ty::U(64))?;
+                if a.eff { self.pre.push(format!("let _ := {}", a.s)); }
+                Ok(e("[]", Ty::List(Box::new(Ty::Any))))
+            }
+            "SeekFrom::Start" => {
+                let a = self.expr(&c.args[0])?;
+                self.unify(&a.ty, &Ty::U(64))?;
+                Ok(E { s: a.s, ty: Ty::Named("SeekFromStart".into()), eff: a.eff })
+            }
             "CountWrite::new" if self.generics.get("CountWrite") == Some(&Ty::Sink) => self.expr(&c.args[0]),
             "compress" => {
                 // `compress(codec, level, data)?` — external (a parameter of the generated module)
@@ -581,6 +669,10 @@ impl<'w> Ctx<'w> {
             all.push((a, p.clone()));
         }
         for (a, (pty, by_mut)) in &all {
+            if let (Ty::FnMut1(at, rt), Expr::Closure(cl)) = (pty, strip_ref(a)) {
+                argv.push(self.closure_arg(cl, at, rt)?);
+                continue;
+            }
             let v = self.expr(a)?;
             if self.is_int(pty) {
                 self.unify(&v.ty, pty)?;
@@ -606,6 +698,9 @@ impl<'w> Ctx<'w> {
             argv.insert(0, "compress".into());
         }
         // fully qualified: inside `def T.f` the namespace `T` is open and a field of `T` may carry the callee's name
+        if sig.rec_self {
+            argv.push("fuel".into());
+        }
         let call = format!("Grenad.Gen.{} {}", sig.lean, argv.join(" "));
         let ret_ty = if sig.ret_is_res { Ty::Res(Box::new(sig.ret.clone())) } else { sig.ret.clone() };
         if backs.is_empty() {
@@ -641,6 +736,31 @@ impl<'w> Ctx<'w> {
             return Ok(E { s: format!("{}.{}", cur, field), ty: fty, eff: false });
         }
         Ok(E { s: if sig.ret == Ty::Unit { "()".into() } else { r }, ty: ret_ty, eff: false })
+    }
+
+    /// a closure `|c| c.method(args)` handed to a parameter `F: FnMut(&mut T) -> U`, `method` a translated
+    /// `&mut self` method of `T` returning `U`: the Lean function `fun c => T.method c args`
+    fn closure_arg(&mut self, cl: &ExprClosure, at: &Ty, rt: &Ty) -> R<String> {
+        if cl.inputs.len() != 1 { return Err("closure arity".into()); }
+        let cname = match &cl.inputs[0] { Pat::Ident(i) => i.ident.to_string(), _ => return Err("closure parameter pattern".into()) };
+        let mc = match &*cl.body { Expr::MethodCall(mc) => mc, _ => return Err("closure body is not a method call on its parameter".into()) };
+        match &*mc.receiver { Expr::Path(p) if p.path.is_ident(&cname) => {}, _ => return Err("closure body is not a method call on its parameter".into()) }
+        let tn = match at { Ty::Named(n) => n.clone(), o => return Err(format!("closure over {:?}", o)) };
+        let sig = self.w.fns.get(&format!("{}.{}", tn, mc.method)).cloned().ok_or_else(|| format!("closure calls `{}.{}`: not a translated function", tn, mc.method))?;
+        if !sig.has_self || !sig.self_mut || sig.uses_step || sig.uses_w || sig.uses_compress || sig.uses_decompress || sig.params.iter().skip(1).any(|(_, m)| *m) {
+            return Err("closure callee shape".into());
+        }
+        if sig.ret != *rt { return Err(format!("closure returns {:?}, expected {:?}", sig.ret, rt)); }
+        let mut argv = vec![];
+        for (a, (pty, _)) in mc.args.iter().zip(sig.params.iter().skip(1)) {
+            let v = self.expr(a)?;
+            if v.eff { return Err("effectful closure argument".into()); }
+            if self.is_int(pty) { self.unify(&v.ty, pty)?; }
+            if mentions_ident(a, &cname) { return Err("closure argument mentions the closure parameter".into()); }
+            argv.push(paren(&v.s));
+        }
+        let c = lean_ident(&cname);
+        Ok(format!("(fun {} => Grenad.Gen.{} {} {})", c, sig.lean, c, argv.join(" ")).replace("  ", " ").replace(" )", ")"))
     }
 
     fn method(&mut self, m: &ExprMethodCall) -> R<E> {
@@ -824,6 +944,13 @@ impl<'w> Ctx<'w> {
                 }
                 (Ty::Src, "seek") => {
                     let a = self.expr(args[0])?;
+                    if a.ty == Ty::Named("SeekFromStart".into()) {
+                        let (r, s2) = (self.fresh("r"), self.fresh("s"));
+                        self.pre.push(format!("let ({}, {}) := {}.seekStart {}", r, s2, cur, paren(&a.s)));
+                        let w = self.place_write(&p, &s2);
+                        self.pre.push(w);
+                        return Ok(E { s: format!("(← liftIo {})", r), ty: Ty::Res(Box::new(Ty::U(64))), eff: true });
+                    }
                     if a.ty != Ty::Named("SeekFromEnd".into()) {
                         return Err("seek other than SeekFrom::End".into());
                     }
@@ -941,6 +1068,17 @@ impl<'w> Ctx<'w> {
             }
             (Ty::Opt(t), "is_some") => { let _ = t; Ok(E { s: format!("{}.isSome", paren(&recv.s)), ty: Ty::Bool, eff }) }
             (Ty::Opt(t), "is_none") => { let _ = t; Ok(E { s: format!("{}.isNone", paren(&recv.s)), ty: Ty::Bool, eff }) }
+            (Ty::Res(t), "map") if matches!(args[0], Expr::Path(_)) => {
+                // `result.map(Type::f)`, `f` a translated by-value function of one argument: errors travel in the monad
+                let pth = match args[0] { Expr::Path(p) => p, _ => unreachable!() };
+                if pth.path.segments.len() != 2 { return Err("Result::map argument".into()); }
+                let key = format!("{}.{}", pth.path.segments[0].ident, pth.path.segments[1].ident);
+                let sig = self.w.fns.get(&key).cloned().ok_or_else(|| format!("Result::map({}): not a translated function", key))?;
+                if sig.params.len() != 1 || sig.params[0].1 || sig.params[0].0 != *t || sig.uses_step || sig.uses_w || sig.uses_compress || sig.uses_decompress || sig.ret_is_res {
+                    return Err("Result::map callee shape".into());
+                }
+                Ok(E { s: format!("(← Grenad.Gen.{} {})", sig.lean, paren(&recv.s)), ty: Ty::Res(Box::new(sig.ret.clone())), eff: true })
+            }
             (Ty::Opt(t), "map" | "and_then") => {
                 let is_map = name == "map";
                 match args[0] {
@@ -1038,6 +1176,10 @@ impl<'w> Ctx<'w> {
             (t, m) => Err(format!("method `{}` on {:?} is outside the subset", m, t)),
         }
     }
+}
+
+fn mentions_ident(e: &Expr, name: &str) -> bool {
+    e.to_token_stream().to_string().split(|c: char| !(c.is_alphanumeric() || c == '_')).any(|t| t == name)
 }
 
 fn turbofish(m: &ExprMethodCall) -> Option<String> {
